@@ -500,6 +500,8 @@ class VM:
         s.externs = []          # (predicate, handler)
         s.extern_cache = {}
         s.stats = dict(paths=0, steps=0, forks=0, ext_calls={}, funcs=set())
+        s.order_vars = {}
+        s.order_ids = set()
         s.ghost_mem = Memory(s)   # owner of globals
         s.ghost_mem.id = 0
         from . import stubs
@@ -1004,6 +1006,8 @@ class VM:
             okF, mF = True, m
             okT, mT = s.solver.check(st.pc, cond)
         if okT and okF:
+            if s.order_ids and _undef_vars(cond, s.order_ids):
+                s.stats.setdefault('addr_dep', []).append("%s: a branch after %s depends on the relative placement of two allocations" % (fr.fn.name[-70:], fr.prev))
             other = st.fork()
             other.pc.append(ncond)
             other.model = mF
@@ -1036,7 +1040,31 @@ class VM:
         elif op == 'gep':
             env[ins.res] = s.gep(fr, a[0], s.operand(fr, None, a[1]), a[2])
         elif op == 'icmp':
-            env[ins.res] = s.icmp(a[0], a[1], s.operand(fr, a[1], a[2]), s.operand(fr, a[1], a[3]))
+            x = s.operand(fr, a[1], a[2])
+            y = s.operand(fr, a[1], a[3])
+            if type(x) is int and type(y) is int and x >= 0x1000000 and y >= 0x1000000 and a[0] not in ('eq', 'ne') \
+                    and isinstance(a[1], ir.PtrTy):
+                ax = st.mem.lookup(x); ay = st.mem.lookup(y)
+                if ax is None and st.mem.lookup(x - 1) is not None:
+                    ax = st.mem.lookup(x - 1)           # one past the end
+                if ay is None and st.mem.lookup(y - 1) is not None:
+                    ay = st.mem.lookup(y - 1)
+                if ax is not None and ay is not None and ax.base != ay.base:
+                    # an ordering comparison between pointers into two different blocks: its outcome is where
+                    # the allocator put them.  It becomes a boolean "A lies below B" shared by all comparisons
+                    # of that pair, so a non-overlap test simplifies to true and any real dependence shows as
+                    # a branch on that boolean (reported, see branch()).
+                    lo, hi = (ax.base, ay.base) if ax.base < ay.base else (ay.base, ax.base)
+                    v = s.order_vars.get((lo, hi))
+                    if v is None:
+                        v = z3.Bool('below!%x!%x' % (lo, hi))
+                        s.order_vars[(lo, hi)] = v
+                        s.order_ids.add(v.get_id())
+                    x_below_y = v if ax.base == lo else z3.Not(v)
+                    env[ins.res] = x_below_y if a[0] in ('ult', 'ule', 'slt', 'sle') else z3.Not(x_below_y)
+                    fr.ip += 1
+                    return None
+            env[ins.res] = s.icmp(a[0], a[1], x, y)
         elif op == 'br':
             s.goto(st, fr, a[0])
             return None
